@@ -22,6 +22,17 @@ def make_spacetime(desc, seed):
     if kind == 'lattice':
         _, la, sh, me, td, lam = desc
         return fields.lattice(la, sh, me, td, Lambda=lam, seed=seed)
+    if kind == 'scaled':
+        # the lattice spacetime with the spatial metric multiplied by a^2
+        # (a << 1: small determinant, large curvature - e.g. cosmological
+        # data normalised to a = 1 today and read at high redshift)
+        _, a, la, sh, me, td, lam = desc
+        st = fields.lattice(la, sh, me, td, Lambda=lam, seed=seed)
+        gf = st.gamma_f
+        st.gamma_f = lambda t, x, y, z, m: [a * a * c
+                                            for c in gf(t, x, y, z, m)]
+        st.name = f"scaled({a}) {st.name}"
+        return st
     if kind == 'mink':
         return fields.minkowski_mapped(seed=seed)
     if kind == 'ds':
@@ -35,7 +46,7 @@ def make_spacetime(desc, seed):
 
 def grid_param(desc, N):
     kind = desc[0]
-    if kind in ('lattice', 'mink'):
+    if kind in ('lattice', 'mink', 'scaled'):
         return fields.grid(N), 'periodic'
     if kind == 'ds':
         d = 2.0 / N
